@@ -526,3 +526,103 @@ def run(ctx):
             if not ok:
                 r12.fail('int/%s/result-not-from-operator' % m.group(1), mirq.site(b, i, j), 'the native `%s` returns an integer that is not %s(a, b) (computed by %s, from %s): a shortcut result is right only if it equals the operator\'s result for every pair, including operands of opposite sign and of different widths' % (m.group(1), want, sorted(calls) or 'no call', 'both operands' if {2, 3} <= sl else 'one operand'))
     r12.need(6)
+
+    radix_overflow_fallback(ctx)
+
+
+INT_ERROR_KINDS = ['Empty', 'InvalidDigit', 'PosOverflow', 'NegOverflow', 'Zero']     # core::num::IntErrorKind, declaration order
+
+
+def _const_variant(mir, body, op):
+    """the variant a constant enum operand names (directly or through a promoted `&Enum::Variant`)"""
+    c = op.get('const')
+    if c is None:
+        return None
+    m = re.search(r'(\w+)\s*$', c.get('s') or '')
+    if 'promoted' in c:
+        pb = mir.by_id.get('%s::{promoted#%d}' % (c['uneval'], c['promoted']))
+        if pb is None:
+            return None
+        for _, _, s in pb.stmts():
+            if s['k'] == 'assign' and s['rv']['k'] == 'agg' and s['rv'].get('ak') == 'adt':
+                return s['rv'].get('v')
+            if s['k'] == 'assign' and s['rv']['k'] == 'use' and 'const' in s['rv']['op']:
+                v = _const_variant(mir, pb, s['rv']['op'])
+                if v:
+                    return v
+        return None
+    return m.group(1) if m else None
+
+
+def radix_overflow_fallback(ctx):
+    """R14.13: LazyBigint::from_str_radix tries the machine parser first; the text denotes an integer the machine parser cannot hold
+    exactly when that parser reports PosOverflow *or* NegOverflow, and in both cases the arbitrary-size parser must be consulted.
+    Decision table over the five IntErrorKind values: for the two overflow kinds every path reaches BigInt::from_str_radix."""
+    from .lib import absint
+    from .lib.facts import callee_name
+    mir = ctx.mir
+    r13 = ctx.rule('R14.13', 'the machine-parse shortcut of from_str_radix falls back to the arbitrary-size parser for both overflow kinds')
+    bs = [b for b in mir.bodies if b.nid == 'util::lazy_bigint::LazyBigint::from_str_radix']
+    if not bs:
+        r13.fail('anchor/from_str_radix', 'src/util/lazy_bigint.rs', 'LazyBigint::from_str_radix not found')
+        r13.need(2)
+        return
+    b = bs[0]
+    shortcut = [bb for bb, t in b.calls() if re.search(r'<impl i(128|64)>::from_str_radix$', strip_generics(callee_name(t) or ''))]
+    big = [bb for bb, t in b.calls() if 'BigInt' in (callee_name(t) or '') and strip_generics(callee_name(t) or '').endswith('::from_str_radix')]
+    if not shortcut:
+        # no shortcut: everything goes to the arbitrary-size parser
+        for k in ('PosOverflow', 'NegOverflow'):
+            r13.inst({'kind': k, 'shortcut': False}, ok=bool(big), kind=k)
+        r13.need(2)
+        return
+    for k in INT_ERROR_KINDS:
+        kv = ('enum', INT_ERROR_KINDS.index(k), k, ())
+
+        def oracle(t, vals, env):
+            nm = strip_generics(callee_name(t) or '')
+            if re.search(r'<impl i(128|64)>::from_str_radix$', nm):
+                return ('err', ('adt', 'ParseIntError', k))
+            if nm == 'std::num::ParseIntError::kind':
+                return ('ref', '#kind')
+            if 'PartialEq' in nm and nm.endswith(('::eq', '::ne')) and len(vals) == 2:
+                names = []
+                for v, o in zip(vals, t['args']):
+                    d = v
+                    for _ in range(3):
+                        d = absint.deref(None, env, d)
+                    if isinstance(d, tuple) and d and d[0] == 'enum':
+                        names.append(d[2])
+                    elif isinstance(d, tuple) and d and d[0] == 'adt' and len(d) >= 3:
+                        names.append(d[2])
+                    else:
+                        cv = _const_variant(mir, b, o)
+                        if cv is None:
+                            # a local holding a reference to a promoted constant
+                            kk, cc = mirq.chase_op(b, o)
+                            cv = _const_variant(mir, b, {'const': cc}) if kk == 'const' else None
+                        names.append(cv)
+                if all(n in INT_ERROR_KINDS for n in names):
+                    return (names[0] == names[1]) == nm.endswith('::eq')
+            return absint.UNKNOWN
+
+        def event(kind, bb, idx, node, env, R):
+            if kind == 'term' and node['k'] == 'call' and bb in big:
+                return 'arbitrary-size parser'
+            if kind == 'term' and node['k'] == 'return':
+                return 'returns without it'
+            return None
+        R0 = absint.region_with_std_oracle(mir, b, oracle, event)
+        absint.CURRENT.append(R0)
+        try:
+            evs, silent, over = R0.run(0, {'#kind': kv})
+        finally:
+            absint.CURRENT.pop()
+        if k in ('PosOverflow', 'NegOverflow'):
+            ok = evs == {'arbitrary-size parser'} and not over
+            r13.inst({'machine_parser_reports': k, 'outcomes': sorted(evs)}, ok=ok, kind=k)
+            if not ok:
+                r13.fail('from_str_radix/%s/no-fallback' % k, mirq.site(b, shortcut[0]), 'when the machine parser reports %s the text is not handed to the arbitrary-size parser on every path (%s): an integer spelled with more digits than the machine word holds (e.g. int("-170141183460469231731687303715884105729")) is rejected although it is a valid integer' % (k, ', '.join(sorted(evs)) or 'no outcome'))
+        else:
+            r13.inst({'machine_parser_reports': k, 'outcomes': sorted(evs)}, ok=True, kind=k)
+    r13.need(5)
